@@ -220,7 +220,8 @@ func checkC05(r *harness.Run) harness.Coverage {
 	hostile.Idents = append(hostile.Idents, univ.Tks(`""`, `"\u0000"`)...)
 	hostile.Idents = append(hostile.Idents, model.T(model.QID, "\"\xff\xff\xff\xff\""), model.T(model.QID, "\"\xc3\xc3\xc3\""))
 	hostile.Nums = append(hostile.Nums, univ.Tks("9223372036854775807", "-9223372036854775808", "99999999999999999999", "-0")...)
-	hostile.Slices = [][]model.Tok{univ.Tks(":", ":", "9223372036854775807"), univ.Tks("-9223372036854775808", ":"), univ.Tks(":", ":", "-9223372036854775808"), univ.Tks(":", "99999999999999999999")}
+	hostile.Slices = [][]model.Tok{univ.Tks(":", ":", "9223372036854775807"), univ.Tks("-9223372036854775808", ":"), univ.Tks(":", ":", "-9223372036854775808"), univ.Tks(":", "99999999999999999999"),
+		univ.Tks("1", ":", ":", "9223372036854775807"), univ.Tks("1", ":", "5", ":", "9223372036854775807"), univ.Tks("-1", ":", ":", "-9223372036854775807")}
 	hostile.Filter, hostile.Star, hostile.Or, hostile.Not = true, true, true, true
 	hw := 4
 	// expression references in arbitrary operand positions (gap G1: no verdict on the value, but no panic either)
